@@ -79,6 +79,12 @@ pub fn exec(tok: &[&str]) -> String {
                 _ => panic!("bad-op"),
             }
         }
+        // the same string offered to the decoders of both variants one after the other on this thread (512, 1024, 512):
+        // a decoder that remembers what it accepted last must still refuse the string under the other variant
+        "dec_seq" => {
+            let name = format!("{}_from_bytes", tok[1]);
+            ["512", "1024", "512"].iter().map(|n| exec(&[name.as_str(), n, tok[2]])).collect::<Vec<_>>().join(" | ")
+        }
         // ---- NTT over Z_q (C11) -------------------------------------------------------------------
         "felt_fft" => ints(&vh::felt_fft(&parse_ints::<u32>(tok[1]))),
         "felt_ifft" => ints(&vh::felt_ifft(&parse_ints::<u32>(tok[1]))),
